@@ -573,6 +573,8 @@ def _nt_c18(ev):
         return (k, ev["ell"], ev["latf"], ev["hf"])
     if k == "dist":
         return (k, ev["ell"], tuple(ev["p"]))
+    if k == "pare":
+        return (k, ev["lonf"], ev["blatf"], ev["latf"], ev["distf"], ev["stf"], ev["hf"])
     return (k, ev["raf"], ev["decf"], ev["latf"], ev["distf"], ev["haf"], ev["hf"])
 
 
